@@ -109,6 +109,17 @@ def generate(rng, tier, rep):
         c['tests'] = [x for x in c['tests'] if 'twin_of' not in x]
         c['injected'] = 'first_iteration_only/' + T['body'][1]
         cases.append(c)
+    # a failing test whose name reads like a report header, in a layer that runs in a subprocess: the names follow the header in the
+    # child's report  (names the run model does not know: only the verdict predicate is evaluated)
+    for i in range({'quick': 6, 'thorough': 40, 'search': 3}[tier]):
+        c = worldcase.gen_world(rng, faults=False, rich=False, opts=[rng.choice(['-j2', '-j3'])] + rng.choice([[], ['-v']]))
+        if not c['layers']:
+            c['layers'] = worldcase.gen_layers(rng, 1, faults=False)
+        c['tests'] = [x for x in c['tests'] if 'twin_of' not in x]
+        c['tests'].append({'layer': rng.randrange(len(c['layers'])), 'body': rng.choice(['fail', 'error']),
+                           'str': rng.choice(['2 0 0', '7 0 0', '1 1 1', '0 0 0'])})
+        c['injected'] = 'lookalike_name/' + c['tests'][-1]['str']
+        cases.append(c)
     for c in cases:
         count_dist(rep, c)
         if c.get('injected'):
